@@ -185,11 +185,12 @@ def smt_root_hash():
 def cm_root_hash_abs():
     return dict(ensures=[C("root", "res == spec_root_coins(self@)", "C07")])
 def st_txroot():
-    return dict(ensures=[C("root", "res == spec_root_txs(self.transactions@, spec_tip908(*self))", "C07")])
+    return dict(requires=[C("keyed", "txs_keyed(self.transactions@)", note="state invariant (part of state_inv): the transaction set is keyed by the transactions' own hashes")],
+                ensures=[C("root", "res == spec_root_txs(self.transactions@, spec_tip908(*self))", "C07")])
 def ss_pre_tip911():
     return dict(ensures=[C("root", "HashVal(novasmt::root_of(res@)) == spec_root_stakes(self@)", "C07", "C13")])
 def st_header_full():
-    return dict(requires=[C("chain", "chain_ok(self.0)")], ensures=[C("is", "res == spec_header(self.0)", "C07", "C06")])
+    return dict(requires=[C("chain", "chain_ok(self.0) && txs_keyed(self.0.transactions@)")], ensures=[C("is", "res == spec_header(self.0)", "C07", "C06")])
 def st_tip906_transition():
     return dict(requires=[C("wf", "old(next_state).coins.wf()"), C("fresh", "old(next_state).coins@.counts == IMap::<Address, nat>::empty()")],
                 ensures=[C("counts", "final(next_state).coins.wf() && final(next_state).coins@.coins == old(next_state).coins@.coins && counts_ok(final(next_state).coins@)", "C20"),
@@ -245,7 +246,8 @@ def ap_batch_impl():
 def cm_new_abs():
     return dict(ensures=[C("root", "spec_root_coins(res@) == HashVal(novasmt::root_of(inner@)) && res.wf()", "C07", "C08")])
 def smt_new():
-    return dict(ensures=[C("root", "spec_root_smt(res@) == HashVal(novasmt::root_of(tree@))", "C07", "C08")])
+    return dict(ensures=[C("root", "spec_root_smt(res@) == HashVal(novasmt::root_of(tree@))", "C07", "C08"),
+                         C("empty", "novasmt::root_of(tree@)@ == Seq::new(32, |i: int| 0u8) ==> res@ == Map::<K, V>::empty()", "C07", note="A-SMT: the all-zero root is the empty tree's")])
 
 def mm_phase(name, extra_props=()):
     """contract shared by process_swaps / process_deposits / process_withdrawals / process_pegging (pool-side phases of sealing)"""
@@ -377,3 +379,6 @@ def mm_process_pegging():
                && res.pools@[pk_mel_sym()].liqs == state.pools@[pk_mel_sym()].liqs && pool_live(res.pools@[pk_mel_sym()])""", "C01", "C16", "C15",
           note="pegging touches no coin and no pool other than MEL/SYM, whose liquidity count is unchanged (the reserves it adds are listed issuance)")]
     return d
+
+def st_tip908_transactions():
+    return dict(ensures=[C("dense", "HashVal(res.root()) == spec_dense_txs(self.transactions@)", "C07", det=True)])
